@@ -134,8 +134,10 @@ type Server struct {
 	// PTR resolving.
 	sysResolvers SystemResolvers
 
-	// access drops disallowed clients.
-	access *accessManager
+	// access drops disallowed clients.  The manager is never changed once it
+	// is stored here and is replaced as a whole when the access settings change,
+	// so it is used without s.serverLock.
+	access atomic.Pointer[accessManager]
 
 	// anonymizer masks the client's IP addresses if needed.
 	anonymizer *aghnet.IPMut
@@ -508,7 +510,7 @@ func (s *Server) Prepare(conf *ServerConfig) (err error) {
 
 	s.setupDNS64()
 
-	s.access, err = newAccessCtx(
+	access, err := newAccessCtx(
 		s.conf.AllowedClients,
 		s.conf.DisallowedClients,
 		s.conf.BlockedHosts,
@@ -516,6 +518,8 @@ func (s *Server) Prepare(conf *ServerConfig) (err error) {
 	if err != nil {
 		return fmt.Errorf("preparing access: %w", err)
 	}
+
+	s.access.Store(access)
 
 	proxyConfig.Fallbacks, err = s.setupFallbackDNS()
 	if err != nil {
@@ -890,18 +894,19 @@ func (s *Server) ServeHTTP(w http.ResponseWriter, r *http.Request) {
 }
 
 // IsBlockedClient returns true if the client is blocked by the current access
-// settings.
+// settings.  It does not lock s.serverLock, since it is also called, through
+// the client finders of the query log and the statistics, while the lock is
+// held for reading.
 func (s *Server) IsBlockedClient(ip netip.Addr, clientID string) (blocked bool, rule string) {
-	s.serverLock.RLock()
-	defer s.serverLock.RUnlock()
+	access := s.access.Load()
 
 	blockedByIP := false
 	if ip != (netip.Addr{}) {
-		blockedByIP, rule = s.access.isBlockedIP(ip)
+		blockedByIP, rule = access.isBlockedIP(ip)
 	}
 
-	allowlistMode := s.access.allowlistMode()
-	blockedByClientID := s.access.isBlockedClientID(clientID)
+	allowlistMode := access.allowlistMode()
+	blockedByClientID := access.isBlockedClientID(clientID)
 
 	// Allow if at least one of the checks allows in allowlist mode, but block
 	// if at least one of the checks blocks in blocklist mode.
